@@ -3,7 +3,7 @@ Histories (interface x optimisation level x order of entry calls x MIR_interp/pu
 spec/MIRExec.tla; programs (two entry functions in one module importing helpers from another: direct, indirect,
 recursive calls, a C callback re-entering MIR, label addresses) and their expected observations from MIRProg/MIRSem."""
 import json, collections
-import vlib, progs, mirlib
+import vlib, progs, mirlib, families
 from vlib import Check, run_tlc, tlc_ok, MachineryError
 
 PROP = "C03"
@@ -138,7 +138,31 @@ def run(tier, only=None):
         if msg:
             ck.violation("exec:%s:%s" % (hst[0]["i"] + ("+" + hst[0]["ih"] if hst[0].get("ih", hst[0]["i"]) != hst[0]["i"] else ""), msg.split(" (step")[0][:50].replace(" ", "_")),
                          "history %s: %s" % (hist_key(hst), msg), {"hist": hst, "A": A, "B": B, "text": modules(A, B)})
-    ck.setc("histories", len(hists)); ck.setc("traces_validated_against_impl", len(jobs))
+    nfam = 0
+    if not only:
+        # parametric families (families.py, c01.py) on the lazy interfaces: single-module programs, expected observations from
+        # MIRRun.tla; the lazy basic-block generator (versions of blocks by variable properties) is a code path of its own
+        import c01
+        fcases = families.property_cases() + families.clone_jmpi_cases() + c01.island_cases() + c01.loop_cases()[::3] + c01.gvar_cases() \
+            + families.spill_index_cases()[::2] + families.fpcmp_cases(vals=("-0", "1.5", "nan"), fmts=("f", "ld")) + families.andext_cases()[::7]
+        if tier == "thorough":
+            fcases = families.property_cases() + families.clone_jmpi_cases() + c01.island_cases() + c01.loop_cases() + c01.gvar_cases() \
+                + families.spill_index_cases() + families.fpcmp_cases() + families.andext_cases() + c01.memwin_cases(8, vlib.seed() % 8)
+        fam, rf = progs.run_family(fcases)
+        engines = ["bb0", "bb1", "bb2", "bb3", "lazy0", "lazy2", "ishim"] if tier == "thorough" else ["bb0", "bb2", "lazy2", "ishim"]
+        fobs, ftexts = progs.run_cases(fam, engines)
+        for i, per in sorted(fobs.items()):
+            so, nans = progs.spec_obs(fam[i])
+            for e in engines:
+                nfam += 1
+                msg = progs.compare_obs(so, per[e], nans, "spec", e)
+                if msg:
+                    again, _ = progs.run_cases([fam[i]], [e])
+                    msg = progs.compare_obs(so, again[0][e], nans, "spec", e)
+                if msg:
+                    ck.violation("family:%s:%s" % (e, msg.split(" ")[0]), "family program %d on %s: %s" % (i, e, msg), {"family_case": fam[i], "engine": e, "text": ftexts[i]})
+        ck.setc("family_cases", len(fam)); ck.setc("family_executions", nfam)
+    ck.setc("histories", len(hists)); ck.setc("traces_validated_against_impl", len(jobs) + nfam)
     ck.setc("by_interface", dict(byif)); ck.setc("program_pool", len(pool))
     ck.setc("rule", "all histories of MIRExec.tla (interface x level x 3 entry calls in any order x call path) replayed on two-module "
                     "programs built by MIRProg.tla (exec vocabulary); results, memory, external-call logs must equal the specification's for "
@@ -150,6 +174,13 @@ def run(tier, only=None):
 
 def replay(path):
     d = json.load(open(path))["case"]
+    if "family_case" in d:
+        c = d["family_case"]
+        obs, _ = progs.run_cases([c], [d["engine"]])
+        so, nans = progs.spec_obs(c)
+        msg = progs.compare_obs(so, obs[0][d["engine"]], nans, "spec", d["engine"])
+        print("replay: %s" % (msg or "agrees with the specification"))
+        return 1 if msg else 0
     return run("quick", only=(d["hist"], d["A"], d["B"]))
 
 
